@@ -18,6 +18,9 @@ func c05Maps(maxEntries int) []map[string]string {
 			out = append(out, map[string]string{k: v})
 		}
 	}
+	// tag sets that differ only in where the boundary between a name and its value falls (a key built by writing names
+	// and values back to back, or "name=value" strings without escaping, cannot tell them apart)
+	out = append(out, map[string]string{"a1": ""}, map[string]string{"": "a1"}, map[string]string{"a": "b=c"}, map[string]string{"a=b": "c"})
 	if maxEntries >= 2 {
 		for i := 0; i < len(keys); i++ {
 			for j := i + 1; j < len(keys); j++ {
